@@ -321,6 +321,34 @@ def parse_fn_block(header, lines):
     return fn
 
 
+def find_fn_block(unit_path, qual, seen=None):
+    """Find the //@fn block for `qual` in a unit template (or the files it includes)."""
+    seen = seen or set()
+    if unit_path in seen:
+        return None
+    seen.add(unit_path)
+    lines = open(unit_path).read().split('\n')
+    i = 0
+    while i < len(lines):
+        s = lines[i].strip()
+        if s.startswith('//@fn'):
+            j = i + 1
+            while not lines[j].strip().startswith('//@end'):
+                j += 1
+            hdr = s[len('//@fn'):].strip()
+            if hdr.split()[1] == qual:
+                return parse_fn_block(hdr, lines[i + 1:j])
+            i = j
+        elif s.startswith('//@include'):
+            r = find_fn_block(os.path.join(ROOT, s.split()[1]), qual, seen)
+            if r is not None:
+                return r
+        i += 1
+    if len(seen) == 1:
+        raise SystemExit('//@use: %s not found in %s' % (qual, unit_path))
+    return None
+
+
 def parse_loop(body, fn, n, counter):
     d = dict(invariant=[], ensures=[], decreases=[], attr=[], invariant_except_break=[])
     cur = None
@@ -369,6 +397,7 @@ class Generator:
         self.rules_used = {}
         self.fuzzy = []
         self.unit_props = []
+        self.uses = []
 
     def source(self, rel):
         if rel not in self.sources:
@@ -396,6 +425,16 @@ class Generator:
             elif s.startswith('//@struct') or s.startswith('//@enum'):
                 p = s.split()
                 self.emit_item(p[0][3:], p[1], p[2], p[3:])
+            elif s.startswith('//@use'):
+                # //@use <unit file> <Owner::fn> [...]: the contract of a function proved in its home
+                # unit, emitted here as signature + contract only (external_body)
+                p = s.split()
+                for q in p[2:]:
+                    fn = find_fn_block(os.path.join(ROOT, 'units', p[1]), q)
+                    fn.mode = 'external_body'
+                    fn.home = p[1]
+                    self.uses.append((p[1], q))
+                    self.emit_fn(fn)
             elif s.startswith('//@fn'):
                 j = i + 1
                 while not lines[j].strip().startswith('//@end'):
@@ -432,6 +471,9 @@ class Generator:
                 text3 = re.sub(a_, r_, text3)
         if 'allpub' in opts:
             text3 = make_fields_pub(text3)
+        for o in opts:
+            if o.startswith('derive='):
+                self.out.emit('#[derive(%s)]' % o[7:].replace(',', ', '))
         self.out.emit(text3, dict(kind='item', src=rel, line=src.text.count('\n', 0, a) + 1))
 
     def record_item(self, src, kind, name, a, b):
@@ -449,7 +491,7 @@ class Generator:
         body = src.text[loc['body_open'] + 1:loc['body_close']]
         body_line0 = src.text.count('\n', 0, loc['body_open'] + 1) + 1
         variants = [(None, fn.opts.get('as', fn.name))]
-        for kid in fn.known:
+        for kid in (fn.known if fn.mode != 'external_body' else []):
             variants.append((kid, fn.opts.get('as', fn.name) + '__kf_' + kid))
         for kid, emit_name in variants:
             self._emit_fn_variant(fn, src, sig, body, body_line0, kid, emit_name, loc)
